@@ -13,7 +13,7 @@ for f in os.listdir(src):
         shutil.copytree(p, os.path.join(dst, f), dirs_exist_ok=True, ignore=shutil.ignore_patterns("target", "Cargo.lock"))
     elif os.path.getsize(p) < 200000:
         shutil.copy(p, dst)
-meta = {"property": pid, "source": "independent sub-agent (given only the property text and a scratch worktree), round 3",
+meta = {"property": pid, "source": "independent sub-agent (given only the property text and a scratch worktree), round 4",
         "summary": summary, "needs": needs, "confirmed": sys.argv[5] if len(sys.argv) > 5 else ""}
 json.dump(meta, open(os.path.join(dst, "meta.json"), "w"), indent=1)
 print(dst)
